@@ -487,6 +487,36 @@ Proof.
   apply bind_panic in H. destruct H as [H|([? ?] & _ & H)]; [eapply de_variant_no_panic; eauto|discriminate].
 Qed.
 
+Lemma de_variant_no_fuel e b pos : de_variant e b pos <> Err EFuel.
+Proof.
+  destruct prim_no_fuel as (Fpad & Fns & Fu32 & Ffix & Fstr & Fvs).
+  unfold de_variant. intros H. apply bind_fuel in H. destruct H as [H|([[sg st0] p1] & _ & H)]; [eapply Fstr; eauto|].
+  destruct (parse_sig sg) as [sg0|]; [|discriminate].
+  destruct (nth_error b (N.to_nat pos)) as [lb|]; [|discriminate].
+  destruct (len b <? pos + 1 + bn lb); [discriminate|].
+  destruct (parse_sig _) as [vs|] eqn:Ep; [|discriminate].
+  destruct (_ || _) eqn:Eu; [discriminate|].
+  destruct (len b <? pos + 1 + bn lb + 1); [discriminate|].
+  assert (Hw : wf vs = true).
+  { apply parse_sig_wf in Ep. destruct Ep as [->|Hw]; [discriminate|exact Hw]. }
+  assert (Hother : (let* p2 := de_value 64 vs field_value_depths e b (pos + 1 + bn lb + 1) in Ok (FOther, p2)) <> Err EFuel).
+  { intros Ho. apply bind_fuel in Ho. destruct Ho as [Ho|(? & _ & Ho)]; [|discriminate].
+    revert Ho. apply de_value_no_fuel; [exact Hw|reflexivity]. }
+  destruct vs; try (apply Hother in H; exact H).
+  - apply bind_fuel in H. destruct H as [H|([? ?] & _ & H)]; [eapply Fu32; eauto|discriminate].
+  - apply bind_fuel in H. destruct H as [H|([[? ?] ?] & _ & H)]; [eapply Fstr; eauto|discriminate].
+  - apply bind_fuel in H. destruct H as [H|([[s ?] ?] & _ & H)]; [eapply Fstr; eauto|]. destruct (parse_sig s); discriminate.
+  - apply bind_fuel in H. destruct H as [H|([[s ?] ?] & _ & H)]; [eapply Fstr; eauto|]. destruct (validate_object_path s); discriminate.
+Qed.
+Lemma de_field_no_fuel e b pos : de_field e b pos <> Err EFuel.
+Proof.
+  destruct prim_no_fuel as (Fpad & Fns & _).
+  unfold de_field. intros H. apply bind_fuel in H. destruct H as [H|(p0 & _ & H)]; [eapply Fpad; eauto|].
+  apply bind_fuel in H. destruct H as [H|([c p1] & _ & H)].
+  { revert H. unfold de_u8. intros H. apply bind_fuel in H. destruct H as [H|([? ?] & _ & H)]; [eapply Fns; eauto|discriminate]. }
+  apply bind_fuel in H. destruct H as [H|([? ?] & _ & H)]; [eapply de_variant_no_fuel; eauto|discriminate].
+Qed.
+
 (* ---------- the fields record ---------- *)
 Definition ostr_at (b : bytes) (o : option (bytes * N)) : Prop :=
   match o with Some (s, st) => str_at b s st | None => True end.
@@ -540,9 +570,11 @@ Proof.
   - destruct (pos =? endp) eqn:E; [|discriminate]. injection H as <- <-. split; [assumption|lia].
   - destruct (pos =? endp) eqn:E; [injection H as <- <-; split; [assumption|lia]|].
     apply bind_ok in H. destruct H as ([[code v] p'] & Hf & H).
-    destruct (endp <? p'); [discriminate|].
-    apply bind_ok in H. destruct H as (fs1 & Hs & H).
+    destruct (endp <? p'); [discriminate|]. destruct (code =? 0); [discriminate|].
     apply de_field_ok in Hf; [|assumption]. destruct Hf as (Hv & Hlt & _).
+    destruct (9 <? code).
+    { eapply IH; [| |exact H]; [lia|assumption]. }
+    apply bind_ok in H. destruct H as (fs1 & Hs & H).
     eapply IH; [| |exact H]; [lia|]. eapply set_field_inv; eauto.
 Qed.
 
@@ -552,7 +584,8 @@ Proof.
   - destruct (pos =? endp); discriminate.
   - destruct (pos =? endp); [discriminate|].
     apply bind_panic in H. destruct H as [H|([[code v] p'] & _ & H)]; [eapply de_field_no_panic; eauto|].
-    destruct (endp <? p'); [discriminate|].
+    destruct (endp <? p'); [discriminate|]. destruct (code =? 0); [discriminate|].
+    destruct (9 <? code); [eapply IH; eauto|].
     apply bind_panic in H. destruct H as [H|(fs1 & _ & H)]; [eapply set_field_no_panic; eauto|].
     eapply IH; eauto.
 Qed.
@@ -564,9 +597,11 @@ Proof.
   induction fuel as [|f IH]; intros e b endp pos fs Hpos Hf H; [lia|].
   cbn [de_fields_loop] in H. destruct (pos =? endp); [discriminate|].
   apply bind_fuel in H. destruct H as [H|([[code v] p'] & Hd & H)]; [eapply de_field_no_fuel; eauto|].
-  destruct (endp <? p'); [discriminate|].
+  destruct (endp <? p'); [discriminate|]. destruct (code =? 0); [discriminate|].
+  apply de_field_ok in Hd; [|assumption].
+  destruct (9 <? code); [revert H; apply IH; lia|].
   apply bind_fuel in H. destruct H as [H|(fs1 & _ & H)]; [eapply set_field_no_fuel; eauto|].
-  apply de_field_ok in Hd; [|assumption]. revert H. apply IH; lia.
+  revert H. apply IH; lia.
 Qed.
 
 Lemma de_fields_ok e b fs p : de_fields e b = Ok (fs, p) -> fields_inv b fs.
@@ -605,7 +640,6 @@ Proof.
   apply bind_ok in H. destruct H as ([ty p2] & H2 & H). apply de_u8_ok in H2. destruct H2 as (-> & _).
   destruct (negb _); [discriminate|].
   apply bind_ok in H. destruct H as ([fl p3] & H3 & H). apply de_u8_ok in H3. destruct H3 as (-> & _).
-  destruct (negb _); [discriminate|].
   apply bind_ok in H. destruct H as ([ver p4] & H4 & H). apply de_u8_ok in H4. destruct H4 as (-> & _).
   apply bind_ok in H. destruct H as ([bl p5] & H5 & H).
   apply bind_ok in H. destruct H as ([sn p6] & H6 & H).
